@@ -25,6 +25,7 @@ import SMGo.Proofs.SM4X2
 import SMGo.Proofs.SM4Key
 import SMGo.Proofs.SM4Inverse
 import SMGo.Proofs.ISAValSpec
+import SMGo.Proofs.ISAValSpecOverlap
 import SMGo.Proofs.ISAValExpandSpec
 import SMGo.Proofs.ISAValRoundL
 import SMGo.Proofs.ISAValWideX2Spec
@@ -322,6 +323,22 @@ theorem asm_cryptoBlockAsm_inplace_eq_spec (g v k rk buf : List Nat)
   Proofs.ISAVal.kernelX1_inplace_eq_spec g v k rk buf hg hv hrk hrkb hbuf hsb
 
 open Model.ISAVal in
+/-- **`cryptoBlockAsm` with `dst` and `src` inside ONE array, ANY overlap** (`kernelStateOverlap g v k rk buf doff soff` of
+    SMGo/Model/ISAValOverlap.lean: `dst = &buf[doff]`, `src = &buf[soff]`; 0 < |doff − soff| < 16 is a partial overlap, in either
+    direction; doff = soff is the in-place call): the 16 bytes at `doff` end up holding the block function of the specification
+    applied to the 16 bytes that were at `soff` AT ENTRY, every other byte of the array keeps its value.  So on the assembly
+    path the result for overlapping arguments is that of a call with a private copy of the input (one 16-byte load precedes
+    the single 16-byte store). -/
+theorem asm_cryptoBlockAsm_overlap_eq_spec (g v k rk buf : List Nat) (doff soff : Nat)
+    (hg : g.length = 16) (hv : v.length = 32) (hrk : rk.length = 32) (hrkb : ∀ x ∈ rk, x < 2 ^ 32)
+    (hd : doff + 16 ≤ buf.length) (hs : soff + 16 ≤ buf.length) (hl : buf.length ≤ 2 ^ 32) (hsb : ∀ x ∈ buf, x < 256) :
+    runDst Gen.ListAmd64Asm.cryptoBlockAsm 2000 (kernelStateOverlap g v k rk buf doff soff)
+      = .ok (buf.take doff
+          ++ (Spec.SM4.crypt (rk.map (BitVec.ofNat 32)) (((buf.drop soff).take 16).map UInt8.ofNat)).map (·.toNat)
+          ++ buf.drop (doff + 16)) :=
+  Proofs.ISAVal.kernelX1_overlap_eq_spec g v k rk buf doff soff hg hv hrk hrkb hd hs hl hsb
+
+open Model.ISAVal in
 /-- **the listing of `expandKeyAsm` computes the key schedule of the specification**: for every 16-byte key,
     whatever the registers (at least two opmask registers exist) and the two 32-word arrays hold at entry, the run
     succeeds, `enc` receives rk_0 … rk_31 and `dec` receives them in reverse order.  (Symbolic execution as for
@@ -472,6 +489,7 @@ end SMGo.Props.C05
 #print axioms SMGo.Props.C05.asm_cryptoBlockAsmX16_eq_spec
 #print axioms SMGo.Props.C05.asm_test_expandKey
 #print axioms SMGo.Props.C05.asm_cryptoBlockAsm_inplace_eq_spec
+#print axioms SMGo.Props.C05.asm_cryptoBlockAsm_overlap_eq_spec
 #print axioms SMGo.Props.C05.asm_expandKeyAsm_eq_spec
 #print axioms SMGo.Props.C05.C05_asm_amd64
 #print axioms SMGo.Props.C05.asm_rounds_all_lanes
